@@ -14,8 +14,14 @@ SPEC = dict(
                "(Props/C17.v: Count-Min; Props/C17_<family>.v).",
     technique="Coq no-stuck theorems over API programs (invariant: cells <= total <= weight fed in <= T::MAX) + panic-is-violation "
               "differential testing in debug and release at configuration extremes",
-    trusted=["the set of modelled panic sites is what I read in the Rust sources (asserts, arithmetic on the counter type, index bounds)",
+    trusted=["the set of modelled panic sites is what I read in the Rust sources: countmin: the constructor's four assertions (incl. seed hash 0), "
+             "the merge compatibility assertion, every `+` on the counter type (tadd: Stuck on overflow); table indexing is total in the model "
+             "(nthN / set_nthN) and covered by the separate conjunct 'every index lies inside the table' of c17_countmin_no_valid_program_is_stuck; "
+             "decay's assert!(0 < d <= 1) is the hypothesis pok (monotone scaling that never grows; for the crate's clamped decay only monotonicity of "
+             "the float part is assumed, checked per run by the oracles)",
              "countmin: weights are non-negative in the model (negative weights of signed counter types are outside it)"],
     assumptions=["countmin: num_hashes >= 1, num_buckets >= 3, num_hashes*num_buckets < 2^30; merge partners have the same configuration; "
-                 "decay factor in (0,1]; the sum of all weights fed into a sketch (including merged partners) fits the counter type"],
+                 "decay factor in (0,1]; the sum of all weights fed into a sketch (including merged partners, before any halving/decay) fits the "
+                 "counter type; the seed's 16-bit hash is not 0 (documented constructor panic; deserialize_with_seed with such a seed panics on its "
+                 "argument and is outside the model)"],
 )
